@@ -9,6 +9,7 @@ import FemtoVerif.Driver.C04
 import FemtoVerif.Driver.C10
 import FemtoVerif.Driver.C16
 import FemtoVerif.Driver.C19
+import FemtoVerif.Driver.C18
 open Lean
 
 namespace Femto.Driver
@@ -37,6 +38,7 @@ def dispatch (op : String) (j : Json) : Except String Json :=
   | "c19.paths" => C19.paths j
   | "c19.merge" => C19.merge j
   | "c19.filter" => C19.filter j
+  | "c18.table" => C18.table j
   | _ => .error s!"unknown op {op}"
 
 def handleLine (line : String) : String :=
